@@ -355,7 +355,15 @@ func (p *Preprocessor) canonicalizeConditional(graph *cfg.CFG, thisBlock *cfg.Bl
 
 		// Standardize binary expressions to be of the form `expr OP literal` by swapping `x` and `y`, if `x` is a literal.
 		// For example, standardizes `nil == v` to the `v == nil` form
-		x, y := cond.X, cond.Y
+		// Parentheses around a literal operand do not change the comparison (e.g., `v != (nil)` or `(nil) == v`), so
+		// we drop them for the patterns below, which expect the literal itself.
+		unparenLiteral := func(expr ast.Expr) ast.Expr {
+			if unparen := ast.Unparen(expr); p.isPredeclared(unparen, "nil", "true", "false") {
+				return unparen
+			}
+			return expr
+		}
+		x, y := unparenLiteral(cond.X), unparenLiteral(cond.Y)
 		if p.isPredeclared(x, "nil", "true", "false") {
 			newCond := &ast.BinaryExpr{
 				// Swap X and Y
